@@ -11,6 +11,7 @@ CONSTANTS
   BugLaterExpiry = FALSE
   BugDeletePending = FALSE
   BugHitExpired = FALSE
+  BugNoRecheck = FALSE
   Depth = 4
   Walks = FALSE
   KeyOrder <- OrdAB
